@@ -40,18 +40,23 @@ def available():
 
 
 def setup():
+    """warm the caches (Lean project, model drivers, sanitizer build of the library).  Never decides anything: a module
+    that does not build from the definitions regenerated from /repo's current tree (a broken proof obligation) or a
+    library that does not compile is reported by the check of the property concerned, so setup only warns about it."""
     t0 = time.time()
-    engine.regen_all(available())
+    try:
+        engine.regen_all(available())
+    except Exception as e:
+        print("setup: warning: regeneration failed (%r); the checks concerned will report it" % (e,))
     rc, out = core.lake(["build", "AslModel", "Gen", "AslProofs", "AslProps"] + ["asl_" + load(p).DRIVER for p in available()])
     if rc != 0:
-        print(out[-6000:])
-        print("setup: lake build failed")
-        return 2
+        print(out[-3000:])
+        print("setup: warning: lake build reported failures; the checks of the properties concerned will report them")
     try:
         core.build_lib("asan")
     except core.BuildError as e:
-        print(str(e))
-        return 2
+        print(str(e)[-3000:])
+        print("setup: warning: the library does not build from /repo's working tree; every check will report it")
     log("[setup] done in %.0fs" % (time.time() - t0))
     return 0
 
